@@ -168,8 +168,238 @@ let stream_main ?(app=false) guard path =
   (match !cur with Some c -> Printf.printf "DIVERGE %s incomplete the implementation did not finish this case (hard crash?)\n" c.id | None -> ());
   Printf.printf "DONE %d\n" !ncases
 
+(* ------------------------------------------------------------------------------------------------ link service (C10, C04) *)
+(* Usage: runner lp <guard 0|1> <trace> <classification table | ->  [needfile]
+   The table has lines "<nthreads> <hex payload> <decode>"; payloads missing from it are written to needfile
+   (phase 1) and treated as undecodable. *)
+let opt_n s = if s = "-" then None else Some (n_of_dec s)
+let str_opt_n = function None -> "-" | Some x -> dec_of_n x
+let unhex s = if s = "-" then [] else bytes_of_hex s
+let hexd b = if b = [] then "-" else hex_of_bytes b
+let z_of_int i = if i >= 0 then Z.of_N (n_of_int i) else failwith "negative"
+
+let kv_of fields =
+  List.filter_map (fun f -> match String.index_opt f '=' with
+    | Some i -> Some (String.sub f 0 i, String.sub f (i+1) (String.length f - i - 1)) | None -> None) fields
+let kv k l = try List.assoc k l with Not_found -> "-"
+
+let parse_l3 s data : l3i option =
+  if s = "-" then None else
+  if data then
+    match String.split_on_char ':' s with
+    | [h; bits] -> Some { h_thread = n_of_dec h; p_threads = List.init (String.length bits) (fun i -> bits.[i] = '1') }
+    | _ -> failwith ("bad l3 " ^ s)
+  else Some { h_thread = n_of_dec s; p_threads = [] }
+
+let parse_lp s : lpf option =
+  if s = "-" then None else
+  match String.split_on_char ',' s with
+  | [sq; ix; ct; tk; inf; nh; cp; mk; fr] ->
+      Some { f_seq = opt_n sq; f_idx = opt_n ix; f_cnt = opt_n ct; f_tok = unhex tk; f_inface = opt_n inf; f_nexthop = opt_n nh;
+             f_cachepol = opt_n cp; f_mark = opt_n mk;
+             f_frag = (if fr = "-" then None else Some (bytes_of_hex (String.sub fr 1 (String.length fr - 1)))) }
+  | _ -> failwith ("bad lp " ^ s)
+
+(* decode string: "E" | "P <i> <d> <lp>" *)
+let parse_dec (fields : string list) : dpkt =
+  match fields with
+  | ["E"] | ["PANIC"] -> DErr
+  | ["P"; i; d; lp] -> DPkt (parse_l3 i false, parse_l3 d true, parse_lp lp)
+  | _ -> failwith ("bad decode " ^ String.concat " " fields)
+
+let str_lp (f : lpf) =
+  String.concat "," [str_opt_n f.f_seq; str_opt_n f.f_idx; str_opt_n f.f_cnt; hexd f.f_tok; str_opt_n f.f_inface; str_opt_n f.f_nexthop;
+                     str_opt_n f.f_cachepol; str_opt_n f.f_mark; (match f.f_frag with None -> "-" | Some b -> "=" ^ hex_of_bytes b)]
+let str_l3 (o : l3i option) data = match o with
+  | None -> "-"
+  | Some i -> dec_of_n i.h_thread ^ (if data then ":" ^ String.concat "" (List.map (fun b -> if b then "1" else "0") i.p_threads) else "")
+let str_dec = function DErr -> "E" | DPkt (i, d, lp) -> "P " ^ str_l3 i false ^ " " ^ str_l3 d true ^ " " ^ (match lp with None -> "-" | Some f -> str_lp f)
+
+let str_delivery (d : delivery) =
+  String.concat " " ["DL"; dec_of_n d.d_thread; (if d.d_interest then "I" else "D"); hexd d.d_raw; hexd d.d_tok; str_opt_n d.d_mark;
+                     str_opt_n d.d_nexthop; str_opt_n d.d_cachepol]
+let str_state (st : rstate) =
+  let ents = List.sort (fun (a, _) (b, _) -> match N.compare a b with Eq -> 0 | Lt -> -1 | Gt -> 1) st.r_store in
+  let one (k, slots) = dec_of_n k ^ ":" ^ String.concat "," (List.map (fun s -> string_of_int (List.length s)) slots) in
+  String.concat " " ["ST"; dec_of_n st.r_nI; dec_of_n st.r_nD; (if ents = [] then "-" else String.concat ";" (List.map one ents))]
+
+let pattern_wire n = List.init n (fun i -> byte_tab.((i * 7 + n) mod 251))
+
+type lpcase = { lid : string; lkind : string; cfg : rcfg; nthr : string }
+
+let lp_main guard path tablepath needpath =
+  let table : (string, dpkt) Hashtbl.t = Hashtbl.create 1000 in
+  if tablepath <> "-" then begin
+    let ic = open_in tablepath in
+    (try while true do
+      let line = input_line ic in
+      match split_ws line with
+      | n :: h :: rest -> Hashtbl.replace table (n ^ " " ^ h) (parse_dec rest)
+      | _ -> ()
+    done with End_of_file -> ());
+    close_in ic
+  end;
+  let need : (string, unit) Hashtbl.t = Hashtbl.create 100 in
+  let ic = open_in path in
+  let lineno = ref 0 and ncases = ref 0 in
+  let cur : lpcase option ref = ref None in
+  let st = ref rs_init in
+  let dead = ref false in                       (* model receiver panicked *)
+  let diverged = ref false in
+  let pending : (string * string list * (unit -> unit)) option ref = ref None in  (* op awaiting its observation lines *)
+  let obs : string list ref = ref [] in
+  let nops = ref 0 and kinds : (string, unit) Hashtbl.t = Hashtbl.create 8 in
+  let ndeliv = ref 0 in
+  let sent : (string * string * string * bool) list ref = ref [] in      (* wire, tok, mark, expected *)
+  let got : (string * string * string) list ref = ref [] in               (* impl deliveries raw, tok, mark *)
+  let prev_st = ref "ST 0 0 -" in
+  let canon = Buffer.create 4096 in
+  let diverge id what m i = diverged := true; Printf.printf "DIVERGE %s %s model=[%s] impl=[%s]\n" id what m i in
+  let oracle id sg txt = Printf.printf "ORACLE %s %s %s\n" id sg txt in
+  let trunc s = if String.length s > 300 then String.sub s 0 300 ^ "..." else s in
+  let flush_pending () = (match !pending with Some (_, _, f) -> f () | None -> ()); pending := None; obs := [] in
+  let finish_case () =
+    flush_pending ();
+    (match !cur with
+     | None -> ()
+     | Some c ->
+       incr ncases;
+       if c.lkind = "c10-perm" then begin
+         (* spec: every message that had to be sent is delivered exactly once, with its token and mark; nothing else *)
+         let expect = List.sort compare (List.filter_map (fun (w, t, m, e) -> if e then Some (w, t, m) else None) !sent) in
+         let have = List.sort compare !got in
+         if expect <> have then begin
+           let missing = List.filter (fun x -> not (List.mem x have)) expect and extra = List.filter (fun x -> not (List.mem x expect)) have in
+           let what = if missing <> [] && extra = [] then "lost" else if missing = [] && extra <> [] then "extra" else if List.length have <> List.length expect then "count" else "altered" in
+           oracle c.lid ("reassembly-" ^ what) (Printf.sprintf "the peer delivered %d packet(s) for %d sent; missing %d, unexpected %d (bytes, PIT token or congestion mark differ)"
+             (List.length have) (List.length expect) (List.length missing) (List.length extra))
+         end
+       end;
+       if not !diverged then
+         Printf.printf "CASEOK %s %s ops=%d opkinds=%d deliveries=%d nontrivial=%d hash=%s\n" c.lid c.lkind !nops (Hashtbl.length kinds) !ndeliv
+           (if !nops >= 3 && (!ndeliv > 0 || Hashtbl.length kinds >= 2 || !nops >= 8) then 1 else 0) (Digest.to_hex (Digest.string (Buffer.contents canon))));
+    cur := None in
+  let inner_for (c : lpcase) (payload : n list) : dpkt =
+    let key = c.nthr ^ " " ^ hexd payload in
+    match Hashtbl.find_opt table key with
+    | Some d -> d
+    | None -> Hashtbl.replace need key (); DErr in
+  (try
+    while true do
+      let line = input_line ic in
+      incr lineno;
+      let fields = split_ws line in
+      match fields with
+      | "LPCASE" :: id :: kind :: rest ->
+          finish_case ();
+          let k = kv_of rest in
+          let b x = kv x k = "1" in
+          cur := Some { lid = id; lkind = kind; nthr = kv "nthreads" k;
+                        cfg = { r_reasm = b "reasm"; r_ccf = b "ccf"; r_lcp = b "lcp"; r_local = b "local"; r_nthreads = n_of_dec (kv "nthreads" k) } };
+          st := rs_init; dead := false; diverged := false; nops := 0; Hashtbl.reset kinds; ndeliv := 0; sent := []; got := [];
+          prev_st := "ST 0 0 -"; Buffer.clear canon; Buffer.add_string canon line
+      | ("SEND" | "SENDZ" as op) :: rest ->
+          flush_pending ();
+          (match !cur with None -> () | Some c ->
+            incr nops; Hashtbl.replace kinds op (); Buffer.add_string canon line;
+            let k = kv_of rest in
+            let mtu = int_of_string (kv "mtu" k) in
+            let o = { o_frag = (kv "frag" k = "1"); o_ifi = (kv "ifi" k = "1") } in
+            let seq = n_of_dec (kv "seq" k) and tok = unhex (kv "tok" k) and inface = opt_n (kv "inface" k) and mark = opt_n (kv "mark" k) in
+            let wire = if op = "SEND" then unhex (kv "wire" k) else pattern_wire (int_of_string (kv "n" k)) in
+            let zmtu = z_of_int mtu in
+            let (frames, ns) = send_packet zmtu o seq tok inface mark wire in
+            let (mfit, mover) = List.partition (fun f -> List.length f <= mtu) frames in
+            let check () =
+              let o_lines = List.rev !obs in
+              let get p = List.filter_map (fun l -> match split_ws l with x :: r when x = p -> Some r | _ -> None) o_lines in
+              let panicked = List.exists (fun l -> l = "SP") o_lines in
+              let (ifit, iover, isig) =
+                if op = "SEND" then (List.concat (get "FR"), List.concat (get "FO"), false)
+                else (List.filter (fun x -> x <> "-") (List.concat (get "FZ")), List.filter (fun x -> x <> "-") (List.concat (get "OZ")), true) in
+              let enc f = if isig then frame_sig f else hex_of_bytes f in
+              let mf = List.map enc mfit and mo = List.map enc mover in
+              if panicked then begin
+                diverge c.lid "send-panic" "no panic" "panic";
+                oracle c.lid "send-panic" "sendPacket panicked"
+              end else begin
+                if mf <> ifit then diverge c.lid "frames" (trunc (String.concat " " mf)) (trunc (String.concat " " ifit));
+                if mo <> iover then diverge c.lid "oversize-frames" (trunc (String.concat " " mo)) (trunc (String.concat " " iover));
+                (match get "NS" with [[x]] -> if x <> dec_of_n ns then diverge c.lid "next-sequence" (dec_of_n ns) x | _ -> ())
+              end;
+              (* oracle on the implementation's frames (sizes only are needed) *)
+              let sizes l = if isig then List.map (fun s -> int_of_string (List.hd (String.split_on_char ':' s))) l
+                            else List.map (fun h -> String.length h / 2) l in
+              let fake n = List.init n (fun _ -> N0) in
+              let ((fits_ok, one_ok), nofrag_ok) = c10_send_ok zmtu o tok inface mark wire (List.map fake (sizes ifit)) (List.map fake (sizes iover)) in
+              let desc = Printf.sprintf "packet of %d bytes, MTU %d, token %d bytes, mark %s, inface %s, fragmentation %b" (List.length wire) mtu
+                           (List.length tok) (str_opt_n mark) (str_opt_n inface) o.o_frag in
+              if not fits_ok then oracle c.lid "frame-exceeds-mtu" ("a frame larger than the MTU was handed to the transport: " ^ desc);
+              if not one_ok then oracle c.lid "fits-but-split" ("a packet that fits in one frame was not sent as exactly one frame: " ^ desc);
+              if not nofrag_ok then oracle c.lid "nofrag-not-dropped" ("fragmentation disabled and the packet does not fit, yet frames were emitted: " ^ desc);
+              let fits = single_frame_fits zmtu o tok inface mark wire in
+              if op = "SEND" then sent := (hexd wire, hexd tok, str_opt_n mark, (fits || o.o_frag)) :: !sent in
+            pending := Some (op, rest, check))
+      | ["RECV"; fh] ->
+          flush_pending ();
+          (match !cur with None -> () | Some c ->
+            incr nops; Hashtbl.replace kinds "RECV" (); Buffer.add_string canon line;
+            let frame = unhex fh in
+            let check () =
+              let o_lines = List.rev !obs in
+              let dec_l = List.find_opt (fun l -> String.length l > 4 && String.sub l 0 4 = "DEC ") o_lines in
+              let dec = match dec_l with Some l -> parse_dec (List.tl (split_ws l)) | None -> DErr in
+              let idl = List.filter (fun l -> String.length l > 3 && String.sub l 0 3 = "DL ") o_lines in
+              let ist = List.find_opt (fun l -> String.length l > 3 && String.sub l 0 3 = "ST ") o_lines in
+              let ipanic = List.mem "RP" o_lines in
+              (* one packet may be queued to several forwarding threads (prefix dispatch of local Data): one delivery *)
+              let trip = List.sort_uniq compare (List.filter_map (fun l -> match split_ws l with
+                | ["DL"; _; _; raw; tok; mark; _; _] -> incr ndeliv; Some (raw, tok, mark) | _ -> None) idl) in
+              got := trip @ !got;
+              (* decoder model vs real decoder, where the model claims to know *)
+              (match pkt_decode (fun _ -> dec) frame with
+               | DecOk d -> if str_dec d <> str_dec dec then diverge c.lid "decode" (trunc (str_dec d)) (trunc (str_dec dec))
+               | DUnsupported -> ());
+              if ipanic then oracle c.lid "recv-panic" "handleIncomingFrame panicked on this frame sequence";
+              if (dec_l = Some "DEC PANIC") then oracle c.lid "decode-panic" "spec.ReadPacket panicked on this frame";
+              (* a frame that fails to decode changes nothing *)
+              (match dec, ist with
+               | DErr, Some s when not ipanic -> if s <> !prev_st || idl <> [] then
+                   oracle c.lid "bad-frame-changed-state" (Printf.sprintf "an undecodable frame changed state: before [%s] after [%s], %d deliveries" !prev_st s (List.length idl))
+               | _ -> ());
+              (match ist with Some s -> prev_st := s | None -> ());
+              if not !dead then begin
+                match handle_frame guard c.cfg (inner_for c) !st dec frame with
+                | HPanic -> dead := true; if not ipanic then diverge c.lid "recv-panic" "panic" "no panic"
+                | HOk (st', out) ->
+                    st := st';
+                    if ipanic then diverge c.lid "recv-panic" "no panic" "panic"
+                    else begin
+                      let mdl = List.map str_delivery out in
+                      if mdl <> idl then diverge c.lid "deliveries" (trunc (String.concat " | " mdl)) (trunc (String.concat " | " idl));
+                      let ms = str_state st' in
+                      (match ist with Some s -> if s <> ms then diverge c.lid "state" (trunc ms) (trunc s) | None -> diverge c.lid "state" ms "none")
+                    end
+              end in
+            pending := Some ("RECV", [], check))
+      | ["END"] -> finish_case ()
+      | x :: _ when (x = "FR" || x = "FO" || x = "FZ" || x = "OZ" || x = "NS" || x = "SP" || x = "DEC" || x = "DL" || x = "ST" || x = "RP") ->
+          obs := line :: !obs
+      | [] -> ()
+      | x :: _ when String.length x > 0 && x.[0] = '#' -> ()
+      | _ -> Printf.printf "BADLINE %d %s\n" !lineno (String.sub line 0 (min 80 (String.length line)))
+    done
+  with End_of_file -> ());
+  (match !cur with Some c -> flush_pending (); Printf.printf "DIVERGE %s incomplete the implementation did not finish this case (hard crash?)\n" c.lid | None -> ());
+  (match needpath with
+   | Some p -> let oc = open_out p in Hashtbl.iter (fun k () -> output_string oc (k ^ "\n")) need; close_out oc
+   | None -> if Hashtbl.length need > 0 then Printf.printf "NEEDMISSING %d payload(s) had no classification\n" (Hashtbl.length need));
+  Printf.printf "DONE %d\n" !ncases
+
 let () =
   match Array.to_list Sys.argv with
   | [_; "stream"; g; path] -> stream_main (g = "1") path
   | [_; "app"; path] -> stream_main ~app:true true path
+  | [_; "lp"; g; path; table] -> lp_main (g = "1") path table None
+  | [_; "lp"; g; path; table; need] -> lp_main (g = "1") path table (Some need)
   | _ -> prerr_endline "usage: runner stream <guard 0|1> <trace>"; exit 2
